@@ -5,6 +5,7 @@ CONSTANTS
   FileKinds <- SomeKinds
   MaxFiles = 2
   Untils <- SomeUntils
+  Headers <- NoHeader
   Decorations <- AllDecorations
   ArgStates <- OkArgs
 INVARIANT TypeOK
